@@ -3739,3 +3739,111 @@ def core_hooks_cancellation_ordering(seed, variant):
                 "expected_pre": [f"pre{t}" for t in tags]}
 
     return sim, stats
+
+
+# ---------------------------------------------------------------------------
+# adversarial "the guarded work outlasts its timer" scenarios (added after seeded changes C07-1 / C07-3:
+# a timestamp computed from an earlier instant only falls into the past when the wait in between is
+# longer than the delay added to it)
+# ---------------------------------------------------------------------------
+
+@scenario
+def infra_gc_thrashing(seed, variant):
+    """GarbageCollector whose pause exceeds its collection interval (GC thrashing), alone on the heap."""
+    from happysimulator import ConcurrentGC, GarbageCollector, GenerationalGC, StopTheWorld
+
+    _seed(seed)
+    v = variant % 3
+    gc = GarbageCollector("gc", strategy=[StopTheWorld(base_pause_s=0.5, interval_s=0.2, pressure_multiplier=2.0),
+                                          ConcurrentGC(pause_s=0.3, interval_s=0.1),
+                                          GenerationalGC(minor_pause_s=0.2, major_pause_s=0.9, minor_interval_s=0.1,
+                                                         major_threshold=0.6)][v],
+                          heap_pressure=[0.9, None, 0.8][v])
+    sim = Simulation(entities=[gc], duration=6.0)
+    sim.schedule(Event.once(time=T(0.0), event_type="PrimeGC", fn=lambda e: gc.prime()))
+
+    def stats():
+        return {"gc": {"stats": _clean(gc.stats), "collections": gc.collection_count}}
+
+    return sim, stats
+
+
+@scenario
+def messaging_queue_slow_consumer(seed, variant):
+    """MessageQueue whose consumers hold a delivery longer than the redelivery delay before reporting the failure."""
+    from happysimulator.components.messaging import MessageQueue
+
+    _seed(seed)
+    v = variant % 3
+    rng = random.Random(seed * 11 + v)
+    mq = MessageQueue("mq", delivery_latency=[0.001, 0.01, 0.002][v], redelivery_delay=[0.05, 0.2, 0.1][v],
+                      max_redeliveries=[3, 5, 2][v])
+
+    class Producer(Entity):
+        def handle_event(self, event):
+            yield from mq.publish(event)
+            return [Event(time=self.now, event_type="poll", target=mq)]
+
+    class SlowConsumer(Entity):
+        def __init__(self, name):
+            super().__init__(name)
+            self.acked = self.timed_out = 0
+
+        def handle_event(self, event):
+            mid = event.context["message_id"]
+            yield [0.3, 0.9, 0.25][v] * (1 + rng.randrange(2))      # much longer than redelivery_delay
+            out = [Event(time=self.now, event_type="poll", target=mq)]
+            if event.context["delivery_count"] >= 2 or rng.random() < 0.3:
+                mq.acknowledge(mid)
+                self.acked += 1
+            else:
+                self.timed_out += 1
+                redelivery = mq.schedule_redelivery(mid)
+                if redelivery is not None:
+                    out.append(redelivery)
+            return out
+
+    prod = Producer("producer")
+    cons = [SlowConsumer(f"consumer{i}") for i in range([1, 2, 1][v])]
+    for c in cons:
+        mq.subscribe(c)
+    srcs = [req_source("src", prod, [3, 2, 5][v], stop_after=3.0)]
+    sim = Simulation(sources=srcs, entities=[mq, prod, *cons], duration=12.0)
+
+    def stats():
+        return {"mq": _clean(mq.stats), "consumers": [(c.acked, c.timed_out) for c in cons]}
+
+    return sim, stats
+
+
+@scenario
+def core_batch_schedule_ties(seed, variant):
+    """Pre-run events handed to the engine as ONE list into an empty heap (no sources), many on one
+    timestamp, whose handlers create further events at the same instant: same-instant delivery order
+    must be creation order whatever the process-wide event counter was when the model was built."""
+    _seed(seed)
+    v = variant % 3
+    rng = random.Random(seed * 13 + v)
+    seen: list = []
+
+    class Node(Entity):
+        def handle_event(self, event):
+            seen.append((self.now.nanoseconds, event.event_type, self.name))
+            k = event.context.get("k", 0)
+            if event.event_type == "Kick" and k < [3, 5, 2][v]:
+                # same instant, created during the run: must order after every pending pre-run event of this instant
+                return [Event(time=self.now, event_type="Echo", target=peers[(int(self.name[1:]) + 1) % len(peers)], context={"k": k + 1}),
+                        Event(time=self.now + Duration.from_seconds([0.0, 0.001, 0.0][v]), event_type="Kick", target=self, context={"k": k + 1})]
+            return None
+
+    peers = [Node(f"n{i}") for i in range([3, 4, 2][v])]
+    sim = Simulation(entities=peers, duration=1.0)
+    times = [0.0, 0.0, 0.0, 0.001, 0.001, 0.5]
+    batch = [Event(time=T(times[i % len(times)]), event_type=("Kick" if i % 2 == 0 else "Mark"), target=peers[rng.randrange(len(peers))],
+                   context={"k": 0}) for i in range([8, 12, 6][v])]
+    sim.schedule(batch)
+
+    def stats():
+        return {"order": seen[:200], "n": len(seen)}
+
+    return sim, stats
